@@ -31,8 +31,20 @@ def gen(rng, tier, info):
                     for f in FLAGS:
                         for via_io in ((0, 1) if t >= 2 else (0,)):
                             cases.append({"t": t, "ion": ion, "m": m, "fmt": fmt, "q": q, "v": v, "f": f, "via": via_io})
+    # a refused write must not show up LATER either: two sections on one stream, a write into the newer one (refused or
+    # not), then an operation on the older one, which redraws what is below it (seeded change C10-g)
+    n_later = 0
+    for fmt in (0, 4, 2):
+        for q in (0, 1):
+            for v in VERBS:
+                for f in FLAGS:
+                    for m1 in ("write", "write_line", "overwrite"):
+                        for m2 in ("write", "write_line", "overwrite", "clear"):
+                            cases.append({"later": 1, "fmt": fmt, "q": q, "v": v, "f": f, "m1": m1, "m2": m2})
+                            n_later += 1
     info["exhaustive"] = True
-    info["distribution"] = {"entry_points": len(ENTRY), "formatters": FMTS, "flags": len(FLAGS), "cases": len(cases)}
+    info["distribution"] = {"entry_points": len(ENTRY), "formatters": FMTS, "flags": len(FLAGS), "cases": len(cases),
+                            "two_section_sequences": n_later}
     return cases
 
 
@@ -49,7 +61,7 @@ def is_ansi(case):
 
 
 def wire(case):
-    if "reflect" in case:
+    if "reflect" in case or "later" in case:
         return [99]
     if "consts" in case:
         return [99]
@@ -58,6 +70,10 @@ def wire(case):
 
 
 def describe(case):
+    if "later" in case:
+        fn = ["AnsiFormatter(forced)", "AnsiFormatter on plain stream", "PlainFormatter", "NullFormatter", "AnsiFormatter on ANSI stream"][case["fmt"]]
+        return ("two sections on one output (%s), quiet=%s verbosity=%s: newer.%s('MARK-REFUSED', flags=%r), then older.%s(...) with everything "
+                "allowed" % (fn, bool(case["q"]), case["v"], case["m1"], case["f"], case["m2"]))
     if "t" not in case:
         return str(case)
     tn = ["Output", "SectionOutput", "IO", "IO.section()"][case["t"]]
@@ -166,7 +182,37 @@ KNOWN = sorted(["Output.write", "Output.write_line", "Output.write_raw", "Output
 NONWRITING = ("format", "remove_format")
 
 
+def _later(case):
+    io, so, se = _mk(case)
+    older, newer = io.output.section(), io.output.section()
+    older.write_line("older content")
+    for o in (older, newer):
+        o.set_quiet(bool(case["q"]))
+        o.set_verbosity(case["v"])
+    m1 = getattr(newer, case["m1"])
+    if case["m1"] == "overwrite":
+        newer.write_line("first")          # something to overwrite (unflagged)
+        # overwrite takes no flags: the gate is quiet / NORMAL
+        m1("MARK-REFUSED")
+        f = None
+    else:
+        f = case["f"]
+        m1("MARK-REFUSED") if f is None else m1("MARK-REFUSED", f)
+    mid = so.fetch()
+    # the older section is written to with everything allowed
+    older.set_quiet(False)
+    older.set_verbosity(4)
+    m2 = getattr(older, case["m2"])
+    m2() if case["m2"] == "clear" else m2("later text")
+    return [mid, so.fetch()[len(mid):], f]
+
+
 def run_impl(case):
+    if "later" in case:
+        try:
+            return ["LATER"] + _later(case)
+        except Exception as e:
+            return ["EXC", type(e).__name__, str(e)[:100]]
     if "reflect" in case:
         return ["REFLECT", _reflect()]
     if "consts" in case:
@@ -189,12 +235,16 @@ def run_impl(case):
 
 
 def canon_model(case, obs):
+    if "later" in case:
+        return [7]
     if "reflect" in case:
         return ["REFLECT", KNOWN]
     return obs
 
 
 def canon_impl(case, obs):
+    if "later" in case:
+        return [7] if obs and obs[0] == "LATER" else obs
     if "reflect" in case:
         # sections of other IO classes (BufferedIO etc.) appear under their class names
         return ["REFLECT", sorted(x for x in obs[1])]
@@ -216,6 +266,16 @@ def lowest(f):
 
 
 def oracle(case, obs):
+    if "later" in case:
+        if obs[0] == "EXC":
+            return "exception:" + obs[1]
+        _, mid, after, f = obs
+        exp = (not case["q"]) and case["v"] >= lowest(f)
+        if not exp and ("MARK-REFUSED" in mid or "MARK-REFUSED" in after):
+            return "refused-text-appears-later:SectionOutput.%s then %s" % (case["m1"], case["m2"])
+        if exp and "MARK-REFUSED" not in mid:
+            return "gate:SectionOutput.%s" % case["m1"]
+        return None
     if "reflect" in case:
         unknown = [x for x in obs[1] if x not in KNOWN]
         if unknown:
@@ -239,6 +299,8 @@ def oracle(case, obs):
 
 
 def nontrivial_key(case, obs):
+    if "later" in case:
+        return ["later"] + [case[k] for k in ("fmt", "q", "v", "f", "m1", "m2")] if case["f"] not in (None, 0) else None
     if "t" in case and obs and obs[0] == 1 and case["f"] not in (None, 0):
         return [case[k] for k in ("t", "ion", "m", "fmt", "q", "v", "f", "via")]
     return None
